@@ -242,8 +242,41 @@ def help_clash_shapes():
     ]
 
 
+def sub_position_shapes():
+    """The `#[cli(subcommand)]` field declared FIRST / in the MIDDLE, options declared after it, at both
+    struct levels (same grammar as with the field last: the declaration order of fields is not grammar)."""
+    def at(sc, k):
+        sc["at"] = k
+        return sc
+    return [
+        st("SubFirst", [opt("count", "required", "int", "i32", long="count"),
+                        opt("verbose", "optional", "bool", "bool", short="v"),
+                        opt("tag", "repeated", "str", STR, long="tag", short="t")],
+           at(sub("cmd", "SubFirstCmd", False, [
+               ("Go", None),
+               ("Run", st("SubFirstRun", [opt("extra", "optional", "int", "i32", short="x")],
+                          at(sub("deep", "SubFirstDeep", True, [("Deep", None)]), 0)))]), 0)),
+        st("SubMiddle", [opt("alpha", "optional", "str", "String", short="a"),
+                         opt("bee", "required", "int", "i32", long="bee", short="b"),
+                         opt("dry", "optional", "bool", "bool", long="dry")],
+           at(sub("cmd", "SubMiddleCmd", True, [
+               ("Stop", None),
+               ("Load", st("SubMiddleLoad", [opt("from", "required", "unixstr", USTR, long="from"),
+                                             opt("quiet", "optional", "bool", "bool", short="q")],
+                           at(sub("how", "SubMiddleHow", True, [("Fast", None), ("Slow", None)]), 1)))]), 1)),
+    ]
+
+
+def wide_shapes():
+    """A field type of the user's own: `Wide` wraps an i32, its FromStr error DISPLAYS the rejected text
+    character by character (Formatter::write_char) - the error-cause path for non-ASCII text that ends
+    1..3 bytes short of the 128-byte cause buffer."""
+    return [st("WideField", [opt("wide", "required", "int", "Wide", long="wide", short="w"),
+                           pos("wpos", "optional", "int", "Wide")])]
+
+
 GRID_FROM = len(SHAPES) + 1      # 1-based index of the first grid shape (smaller bounds from here on)
-SHAPES = SHAPES + grid_shapes() + decor_shapes() + help_clash_shapes()
+SHAPES = SHAPES + grid_shapes() + decor_shapes() + help_clash_shapes() + sub_position_shapes() + wide_shapes()
 decorate(SHAPES)
 
 # ---------------------------------------------------------------------------------------------
@@ -394,7 +427,20 @@ def emit_rust_struct(s, path, top, out, structs):
     out.append("#[derive(ArgParse)]")
     out.append('#[cli(help_path = "%s")]' % ", ".join(path))
     out.append("pub struct %s {" % name)
-    for f in s["fields"]:
+    def emit_sub_field():
+        sc = s["sub"]
+        for d in sc.get("field_decor", []):
+            out.append("    " + d)
+        out.append("    #[cli(subcommand)]")
+        for d in sc.get("field_decor_after", []):
+            out.append("    " + d)
+        out.append("    %s: %s," % (sc["field"], ("Option<%s>" % sc["enum"]) if sc["opt"] else sc["enum"]))
+
+    # the subcommand field is declared in front of field number sub["at"] (default: after all fields)
+    sub_at = s["sub"].get("at", len(s["fields"])) if s["sub"] else -1
+    for fi, f in enumerate(s["fields"]):
+        if fi == sub_at:
+            emit_sub_field()
         for d in f.get("decor", []):
             out.append("    " + d)
         attrs = []
@@ -407,14 +453,8 @@ def emit_rust_struct(s, path, top, out, structs):
         for d in f.get("decor_after", []):
             out.append("    " + d)
         out.append("    %s: %s," % (f["name"], rust_type(f)))
-    if s["sub"]:
-        sc = s["sub"]
-        for d in sc.get("field_decor", []):
-            out.append("    " + d)
-        out.append("    #[cli(subcommand)]")
-        for d in sc.get("field_decor_after", []):
-            out.append("    " + d)
-        out.append("    %s: %s," % (sc["field"], ("Option<%s>" % sc["enum"]) if sc["opt"] else sc["enum"]))
+    if s["sub"] and sub_at >= len(s["fields"]):
+        emit_sub_field()
     out.append("}")
     if s["sub"]:
         sc = s["sub"]
@@ -463,9 +503,9 @@ PRELUDE = '''//! GENERATED by lib/checks/cli_shapes.py from the shape table - do
 //!               | {"i":n,"r":"panic","msg":..}
 //!        clishapes cause <vectors.ndjson>   lines {"pieces": [len..]}  (ArgParseCauseBuffer writer)
 //!        clishapes helps                    the help text of every level of every shape
-#![allow(dead_code)]
 #![allow(clippy::all)]
 use std::io::BufRead;
+#[allow(unused_imports)]
 use tiny_cli::{ArgParse, Subcommand};
 use tiny_std::unix::cli::{ArgParse, ArgParseError};
 use tiny_std::UnixStr;
@@ -474,18 +514,49 @@ use vharness::{guarded, json, quiet_panics, Out, Value};
 trait Show {
     fn show(&self) -> Value;
 }
+#[allow(dead_code)]
 fn bytes(b: &[u8]) -> Value {
     Value::Array(b.iter().map(|x| json!(*x)).collect())
 }
+#[allow(dead_code)]
 fn ubytes(u: &&'static UnixStr) -> Value {
     let s = u.as_slice();
     bytes(&s[..s.len() - 1])
 }
+#[allow(dead_code)]
 fn sbytes<S: AsRef<str>>(s: &S) -> Value {
     bytes(s.as_ref().as_bytes())
 }
+#[allow(dead_code)]
 fn int<T: Into<i64> + Copy>(x: &T) -> Value {
     json!(Into::<i64>::into(*x))
+}
+
+/// A user-defined field type: an i32 whose FromStr error prints the rejected text char by char.
+#[allow(dead_code)]
+#[derive(Debug, Clone, Copy)]
+pub struct Wide(i32);
+impl From<Wide> for i64 {
+    fn from(w: Wide) -> i64 {
+        i64::from(w.0)
+    }
+}
+#[allow(dead_code)]
+pub struct WideErr(String);
+impl core::fmt::Display for WideErr {
+    fn fmt(&self, f: &mut core::fmt::Formatter) -> core::fmt::Result {
+        use core::fmt::Write;
+        for c in self.0.chars() {
+            f.write_char(c)?;
+        }
+        Ok(())
+    }
+}
+impl core::str::FromStr for Wide {
+    type Err = WideErr;
+    fn from_str(s: &str) -> Result<Self, Self::Err> {
+        s.parse::<i32>().map(Wide).map_err(|_| WideErr(s.to_string()))
+    }
 }
 
 '''
@@ -532,7 +603,37 @@ fn show_err(r: Result<ArgParseError, ArgParseError>) -> Value {
 /// One line: {"pieces":[n1,n2,..]} : the cause is written as that many pieces of those lengths
 /// (piece k consists of the letter 'a'+k%26), once through new_cause_str (pieces concatenated,
 /// one write) and once through new_cause_fmt (one write_str per piece).
+struct Chars<'a>(&'a str, &'a [char]);
+impl core::fmt::Display for Chars<'_> {
+    fn fmt(&self, f: &mut core::fmt::Formatter) -> core::fmt::Result {
+        use core::fmt::Write;
+        f.write_str(self.0)?;
+        for c in self.1 {
+            f.write_char(*c)?;
+        }
+        Ok(())
+    }
+}
+/// {"pieces":[pre,w1,w2,..],"chars":true}: `pre` bytes through write_str, then one CHARACTER of
+/// w1, w2, .. bytes each through Formatter::write_char (x, e-acute, euro sign, an emoji).
+fn cause_chars(v: &Value) -> Value {
+    let p: Vec<usize> = v["pieces"].as_array().unwrap().iter().map(|n| n.as_u64().unwrap() as usize).collect();
+    let pre = "a".repeat(p[0]);
+    let chars: Vec<char> = p[1..].iter().map(|w| ['x', '\\u{e9}', '\\u{20ac}', '\\u{1f600}'][*w - 1]).collect();
+    let whole: String = pre.clone() + &chars.iter().collect::<String>();
+    let s = guarded(|| show_err(ArgParseError::new_cause_str(&HELP, &whole)));
+    let f = guarded(|| show_err(ArgParseError::new_cause_fmt(&HELP, format_args!("{}", Chars(&pre, &chars)))));
+    let pk = |r: Result<Value, String>| match r {
+        Ok(v) => v,
+        Err(m) => json!({"via": "panic", "msg": m}),
+    };
+    json!({"str": pk(s), "fmt": pk(f)})
+}
+
 fn cause_line(v: &Value) -> Value {
+    if v["chars"].as_bool() == Some(true) {
+        return cause_chars(v);
+    }
     let pieces: Vec<String> = v["pieces"].as_array().unwrap().iter().enumerate()
         .map(|(k, n)| std::iter::repeat((b'a' + (k % 26) as u8) as char).take(n.as_u64().unwrap() as usize).collect())
         .collect();
@@ -582,7 +683,7 @@ fn main() {
                 unsafe { libc::_exit(43) }
             }
             unsafe {
-                libc::signal(libc::SIGALRM, on_alarm as usize);
+                libc::signal(libc::SIGALRM, on_alarm as extern "C" fn(i32) as usize);
             }
             for (i, line) in f.lines().enumerate() {
                 let line = line.unwrap();
